@@ -506,6 +506,37 @@ def apply_drop_rules(item_text: str, path: str, keep_vis: bool = False) -> tuple
     return text, sorted(set(fired))
 
 
+def _stmt_end_in(src: Source, k: int, limit: int) -> int:
+    """End of the depth-0 statement starting at significant token k inside a block that closes at token `limit`: the first `;` at
+    depth 0, or the closing brace of a block-like statement (if/match/while/for/loop/unsafe/{..}) not followed by an operator."""
+    j = k
+    first = src.toks[k]
+    blocklike = first.kind == "ident" and first.text in ("if", "match", "while", "for", "loop", "unsafe") or first.text == "{"
+    last = k
+    while j is not None and j < limit:
+        t = src.toks[j]
+        if t.kind == "punct" and t.text == ";":
+            return j
+        if t.kind == "punct" and t.text in OPEN:
+            e = src.match[j]
+            if t.text == "{" and blocklike:
+                n = src.next_sig(e)
+                if n is None or n >= limit:
+                    return e
+                nt = src.toks[n]
+                if nt.kind == "ident" and nt.text == "else":
+                    j = n
+                    last = n
+                    j = src.next_sig(j)
+                    continue
+                if not (nt.kind == "punct" and nt.text in (".", "?", ";")):
+                    return e
+            j = e
+        last = j
+        j = src.next_sig(j)
+    return last
+
+
 def _stmt_end(src: Source, k: int) -> int:
     """End of the statement/item starting at significant token k."""
     j = k
@@ -682,6 +713,33 @@ def fragment(fn_text: str, path: str, kind: str, ordinal) -> str:
     kind == "let": `ordinal` is the NAME of the bound variable; the statement `let NAME ... ;` is returned."""
     src = Source(path, fn_text)
     toks = src.toks
+    if kind == "tail":
+        # everything AFTER the body statement that starts with the marker text, up to the end of the fn body (tail expression included)
+        marker = re.sub(r"\s+", "", str(ordinal))
+        fnk = next(k for k in src.sig if toks[k].kind == "ident" and toks[k].text == "fn")
+        j = src.next_sig(fnk)
+        body_open = None
+        while j is not None:
+            if toks[j].kind == "punct" and toks[j].text == "{":
+                body_open = j
+                break
+            if toks[j].kind == "punct" and toks[j].text in OPEN:
+                j = src.match[j]
+            j = src.next_sig(j)
+        if body_open is None:
+            raise ExtractError(f"{path}: fn without body")
+        body_close = src.match[body_open]
+        k = src.next_sig(body_open)
+        hits = []
+        while k is not None and k < body_close:
+            end = _stmt_end_in(src, k, body_close)
+            stmt = re.sub(r"\s+", "", src.text[toks[k].start:toks[end].end])
+            if stmt.startswith(marker):
+                hits.append(end)
+            k = src.next_sig(end)
+        if len(hits) != 1:
+            raise ExtractError(f"{path}: anchor lost: statement starting with `{ordinal}` found {len(hits)} times")
+        return src.text[toks[hits[0]].end:toks[body_close].start]
     if kind == "let":
         hits = []
         for k in src.sig:
